@@ -1,0 +1,93 @@
+//go:build verif
+
+package cff
+
+import "seehuhn.de/go/dijkstra"
+
+// Thin exports of the unexported Type 2 charstring decoder/encoder for the /verif
+// correspondence harness (properties C05 and C04).  Add-only; compiled only with
+// the build tag "verif".  No behaviour is changed.
+
+// VerifT2Decode runs decodeCharString with the given local/global subroutines
+// and default/nominal widths.
+func VerifT2Decode(code []byte, subrs, gsubrs [][]byte, defaultWidth, nominalWidth float64) (*Glyph, error) {
+	info := &decodeInfo{
+		subr:         cffIndex(subrs),
+		gsubr:        cffIndex(gsubrs),
+		defaultWidth: defaultWidth,
+		nominalWidth: nominalWidth,
+	}
+	return info.decodeCharString(code)
+}
+
+// VerifT2MaxStack is the constant maxStack.
+const VerifT2MaxStack = maxStack
+
+// VerifT2EncodeNumber is encodeNumber: the value the decoder will see and the code.
+func VerifT2EncodeNumber(x float64) (float64, []byte) {
+	e := encodeNumber(x)
+	return e.Val, e.Code
+}
+
+// VerifT2Num is an encodedNumber.
+type VerifT2Num struct {
+	Val  float64
+	Code []byte
+}
+
+// VerifT2Cmd is an enCmd.
+type VerifT2Cmd struct {
+	Op   GlyphOpType
+	Args []VerifT2Num
+}
+
+// VerifT2EncodeArgs is encodeArgs.
+func VerifT2EncodeArgs(cmds []GlyphOp) []VerifT2Cmd {
+	ee := encodeArgs(cmds)
+	res := make([]VerifT2Cmd, len(ee))
+	for i, e := range ee {
+		res[i].Op = e.Op
+		for _, a := range e.Args {
+			res[i].Args = append(res[i].Args, VerifT2Num{Val: a.Val, Code: a.Code})
+		}
+	}
+	return res
+}
+
+// VerifT2Edge is an edge proposed by encoder.AppendEdges.
+type VerifT2Edge struct {
+	Code [][]byte
+	To   int
+}
+
+// VerifT2Edges runs encodeArgs on cmds (which must consist of a moveto-free
+// run of lineto/curveto commands, as encodeSubPath sees it after the prefix
+// `skip` has been removed) and returns the edges proposed at index from.
+func VerifT2Edges(cmds []GlyphOp, skip, from int) []VerifT2Edge {
+	enc := encoder(encodeArgs(cmds)[skip:])
+	var res []VerifT2Edge
+	for _, e := range enc.AppendEdges(nil, from) {
+		res = append(res, VerifT2Edge{Code: e.code, To: e.to})
+	}
+	return res
+}
+
+// VerifT2ChosenPath returns the edges chosen by the shortest-path search for
+// the sub-path encodeArgs(cmds)[skip:].
+func VerifT2ChosenPath(cmds []GlyphOp, skip int) []VerifT2Edge {
+	enc := encoder(encodeArgs(cmds)[skip:])
+	ee, err := dijkstra.ShortestPath[int, edge, int](enc, 0, len(enc))
+	if err != nil {
+		panic(err)
+	}
+	var res []VerifT2Edge
+	for _, e := range ee {
+		res = append(res, VerifT2Edge{Code: e.code, To: e.to})
+	}
+	return res
+}
+
+// VerifT2EncodeCharString is (*Glyph).encodeCharString.
+func VerifT2EncodeCharString(g *Glyph, defaultWidth, nominalWidth float64) ([]byte, error) {
+	return g.encodeCharString(defaultWidth, nominalWidth)
+}
